@@ -169,6 +169,10 @@ func LoadRulesOfResource(res string, rules []*Rule) (bool, error) {
 	defer updateRuleMux.Unlock()
 	// clear resource rules
 	if len(rules) == 0 {
+		if _, loaded := currentRules[res]; !loaded {
+			// nothing was loaded for the resource, so there is nothing to clear
+			return false, nil
+		}
 		// clear resource's currentRules
 		delete(currentRules, res)
 		// clear breakers & breakerRules
